@@ -237,6 +237,10 @@ def run(ctx: Ctx, env):
             ctx.check(case in seen_cases, "R2.quantifier-case-covered", f"{label}|{case[0]}|{'lambda' if case[1] else 'no-lambda'}",
                       f"no branch of visit_CollectionLambda handles {case[0].lower()}({'p' if case[1] else ''})", hci.module.loc(fn))
 
+    # ---- (3b) the lambda body is made relative to the collection by IdentifierStripper: its shape rules (C17) are a precondition ----
+    from . import c17 as _c17
+    _c17.run(_SubCtx(ctx, only={"R1.strip-shape", "R1.strip-condition", "R1.strip-shape-covered", "R0.generic-transformer-complete"}), env)
+
     # ---- (4) outer joins (shared with C15) ------------------------------------------------------------------------------------
     from .c15 import _check_chain
     def orm_extra(ctx2, p, t, calls, key, where):
